@@ -999,6 +999,92 @@ func c07GenHistory(c *core.Ctx, family string) c07Case {
 	return k
 }
 
+// c07BoundaryHistories: deterministic histories run on EVERY run before the random stream (guide item
+// 4): every boundary the property's quantifier and the cache geometry name.
+func c07BoundaryHistories(c *core.Ctx) []c07Case {
+	var out []c07Case
+	disc := func(enc, hint, src int, dt uint32, record bool) c07Op {
+		return c07Op{Kind: "discover", EncAs: enc, Hint: hint, Src: src, Dt: dt, Record: record}
+	}
+	lookup := func(src int, dt uint32) c07Op { return c07Op{Kind: "cache-lookup", Src: src, Dt: dt} }
+	users := func(n int) []int {
+		u := make([]int, n)
+		for i := range u {
+			u[i] = i
+		}
+		return u
+	}
+	// (1) hint collisions: two users (distinct credentials) whose names collide on the 4-byte hint; the
+	// OTHER one is cached for the source; both hint modes; same and another source
+	for _, mand := range []bool{false, true} {
+		creds, prefix := c07GenCreds(c, 4, 0, true)
+		if prefix == "" {
+			c.Note("C07: no colliding name pair found for the boundary case")
+			continue
+		}
+		out = append(out, c07Case{Kind: "history", Creds: creds, Users: users(4), Mandatory: mand, Tick0: 1000, Prefix: prefix, Ops: []c07Op{
+			disc(0, -3, 0, 1, true), lookup(0, 0), disc(1, -3, 0, 1, true), disc(0, -3, 0, 1, true), disc(1, -3, 0, 1, false),
+			disc(1, -3, 10, 1, true), disc(0, -3, 10, 1, false), disc(2, -3, 0, 1, false), disc(1, -3, 0, 601, false),
+		}})
+		c.Hist("boundary_history", fmt.Sprintf("hint-collision/mandatory=%v", mand))
+	}
+	// (2) users per source 0, 1, 15, 16, 17 (the 16-slot entry and the 16-id attempted array): user i
+	// authenticates from ONE source; after 0, 1, 15, 16, 17 users a lookup and an unhinted segment of the
+	// FIRST user (cached fallback / evicted → registry fallback), hints optional and mandatory
+	for _, mand := range []bool{false, true} {
+		creds, _ := c07GenCreds(c, 18, 0, false)
+		k := c07Case{Kind: "history", Creds: creds, Users: users(18), Mandatory: mand, Tick0: 50}
+		for i := 0; i <= 17; i++ {
+			switch i {
+			case 0, 1, 15, 16, 17:
+				k.Ops = append(k.Ops, lookup(0, 0), disc(0, -1, 0, 0, false), disc(0, 0, 0, 0, false), disc(17, 17, 0, 0, false))
+				c.Hist("boundary_users_per_source", strconv.Itoa(i))
+			}
+			if i < 17 {
+				k.Ops = append(k.Ops, disc(i, i, 0, 1, true))
+			}
+		}
+		out = append(out, k)
+	}
+	// (3) 3, 4, 5 source keys in one bucket (4 ways): way replacement
+	{
+		creds, _ := c07GenCreds(c, 3, 0, false)
+		k := c07Case{Kind: "history", Creds: creds, Users: users(3), Tick0: 7}
+		for key := 0; key < 5; key++ {
+			k.Ops = append(k.Ops, disc(key%3, key%3, key, 2, true))
+			if key >= 2 {
+				for q := 0; q <= key; q++ {
+					k.Ops = append(k.Ops, lookup(q, 0))
+				}
+				c.Hist("boundary_keys_in_bucket", strconv.Itoa(key+1))
+			}
+		}
+		out = append(out, k)
+	}
+	// (4) dt ∈ {0, 1, 599, 600, 601, 1200} after a record, starting just below the 32-bit tick wrap
+	for _, dt := range []uint32{0, 1, 599, 600, 601, 1200} {
+		for _, t0 := range []uint32{0, 4294967295 - 300, 4294967295} {
+			creds, _ := c07GenCreds(c, 2, 0, false)
+			out = append(out, c07Case{Kind: "history", Creds: creds, Users: users(2), Tick0: t0, Ops: []c07Op{
+				disc(0, 0, 0, 0, true), disc(1, 1, 0, 1, true), lookup(0, dt), disc(0, -1, 0, 0, false), disc(1, -1, 0, 0, true), lookup(0, 599), lookup(0, 1),
+			}})
+		}
+		c.Hist("boundary_dt", strconv.FormatUint(uint64(dt), 10))
+	}
+	// (5) cached ids 0 / n / n+1 / duplicates, cached list lengths 0, 1, 15, 16 injected through the hook
+	for _, n := range []int{0, 1, 15, 16} {
+		creds, _ := c07GenCreds(c, 3, 0, false)
+		k := c07Case{Kind: "history", Creds: creds, Users: users(3), Tick0: 99}
+		for j := 0; j < n; j++ {
+			k.Ops = append(k.Ops, c07Op{Kind: "cache-record", Src: 0, ID: uint32([]int{3, 4, 0, 2, 2, 9, 1}[j%7] + 10*(j/7)), Dt: 0})
+		}
+		k.Ops = append(k.Ops, lookup(0, 0), disc(2, -1, 0, 0, false), disc(2, 2, 0, 0, false), disc(0, 1, 0, 0, false), disc(-1, -1, 0, 0, false))
+		out = append(out, k)
+		c.Hist("boundary_cached_len", strconv.Itoa(n))
+	}
+	return out
+}
+
 // c07Concurrent: SetUsers racing with Discover (thorough tier). Only schedule-independent facts
 // are asserted: no panic, an accepted segment is attributed to the sealing user, and once the
 // reloads have stopped on a set without that user its credential is refused.
@@ -1107,6 +1193,12 @@ func init() {
 			c07BuildPool(c)
 			for _, k := range c07LoadCorpus(c) {
 				c07RunCase(c, k)
+			}
+			for _, k := range c07BoundaryHistories(c) {
+				c07RunCase(c, k)
+				if c07Violated(c) {
+					break
+				}
 			}
 			fams := []string{"distinct", "distinct", "shared", "collide", "many", "distinct", "shared"}
 			for i := 0; i < c.N(60, 900); i++ {
